@@ -11,4 +11,42 @@ example : (wrss.map writeAll).map List.length = [36, 16] := by decide
 /-- 7 parts over 52 bytes with a 2-word buffer: boundaries inside the multi-part record, empty parts -/
 example : ((List.range 7).map fun k => okOf (partBlobs Fmt.recordio (wrss.map writeAll) k 7 2 4 (fun _ => true)))
     = [some [w9], some [], some [], some [[]], some [[1, 2, 3, 4, 5]], some [], some []] := by decide
+
+/-! ### non-vacuity of the C04 theorems: their hypotheses hold for `wrss`, `n = 7`, `w = 2`, `dw = 4` -/
+
+example : ∃ parts : List (List Bytes),
+    (List.range 7).map (fun k => okOf (partBlobs Fmt.recordio (wrss.map writeAll) k 7 2 4 (fun _ => true)))
+      = parts.map some ∧ parts.flatten = wrss.flatten :=
+  C04_parts_cover wrss 7 2 4 (by decide) (by decide) (by decide) (by decide) (by decide) (by decide) (by decide)
+
+example : partBlobs Fmt.recordio (wrss.map writeAll) 3 7 2 4 (fun _ => true)
+    = .ok (recsIn wrss.flatten 0 (bndR wrss 7 3) (bndR wrss 7 4)) :=
+  C04_part_records wrss 7 2 4 (by decide) (by decide) (by decide) (by decide) (by decide) (by decide) 3 (by decide)
+
+/-- alternating `NextRecord` / `NextChunk`, differently per part -/
+example :
+    (∀ k, k < 7 → ∃ bs, partBlobs Fmt.recordio (wrss.map writeAll) k 7 2 4 (fun i => (k + i) % 2 == 0) = .ok bs) ∧
+    (List.range 7).flatMap (fun k => recordsOf (fun i => (k + i) % 2 == 0)
+        (partBlobs Fmt.recordio (wrss.map writeAll) k 7 2 4 (fun i => (k + i) % 2 == 0))) = wrss.flatten :=
+  C04_parts_cover_any_mode wrss 7 2 4 (by decide) (by decide) (by decide) (by decide) (by decide) (by decide)
+    (by decide) (fun k i => (k + i) % 2 == 0)
+
+example : ∃ (bs : List Bytes) (runs : List (List Bytes)),
+    partBlobs Fmt.recordio (wrss.map writeAll) 0 7 2 4 (fun _ => false) = .ok bs ∧ runs.length = bs.length ∧
+    runs.flatten = recsIn wrss.flatten 0 (bndR wrss 7 0) (bndR wrss 7 1) ∧
+    (∀ (i : Nat) (b : Bytes) (run : List Bytes), bs[i]? = some b → runs[i]? = some run →
+      run ≠ [] ∧ (if (fun _ => false) i then run = [b] else b = writeAll run)) :=
+  C04_chunks_whole_records wrss 7 2 4 (by decide) (by decide) (by decide) (by decide) (by decide) (by decide) 0
+    (by decide) (fun _ => false)
+
+example : bndR wrss 7 0 = 0 ∧ bndR wrss 7 7 = totalSize (wrss.map writeAll) ∧
+    (∀ i j, i ≤ j → bndR wrss 7 i ≤ bndR wrss 7 j) ∧ (∀ j, GHead wrss (bndR wrss 7 j)) ∧
+    (∀ j, bndR wrss 7 j % 4 = 0) :=
+  C04_boundaries wrss 7 (by decide) (by decide) (by decide) (by decide)
+
+/-- consumed with `NextChunk` only: the chunks of the parts, read back with `RecordIOReader`, are the records
+(evaluated on the model) -/
+example : ((List.range 7).map fun k =>
+      recordsOf (fun _ => false) (partBlobs Fmt.recordio (wrss.map writeAll) k 7 2 4 (fun _ => false)))
+    = [[w9], [], [], [[]], [[1, 2, 3, 4, 5]], [], []] := by decide
 end DmlcModel.Props.C04
